@@ -98,7 +98,7 @@ func xrule(r *SRule) XRule {
 			}
 		}
 	case RVAllOf:
-		if len(r.AllOf) == 1 {
+		if len(r.AllOf) == 1 && !r.AllOfList { // a single name written as a string; a one-name list stays an array
 			x.TokenType, x.Value = "reference", r.AllOf[0]
 		} else {
 			x.TokenType = "array"
@@ -115,6 +115,9 @@ func AST(n *SNode) XNode { return astNode(n, "", false) }
 
 func astNode(n *SNode, key string, shortcut bool) XNode {
 	x := XNode{Key: key, IsKeyShortcut: shortcut, Comment: n.Note}
+	if n.NoteDetached {
+		x.Comment = ""
+	}
 	switch n.Kind {
 	case SObj:
 		x.TokenType, x.SchemaType = "object", "object"
